@@ -43,7 +43,11 @@ def main():
             if k.startswith('_'):
                 continue
             c, tier = k.split('/')
-            caught.setdefault(c, []).append('%s%s' % (name, '' if v.get('caught') else ' (missed)'))
+            try:
+                neut = json.load(open(os.path.join(V, 'seeded', name, 'meta.json'))).get('neutralised_by')
+            except (OSError, ValueError):
+                neut = None
+            caught.setdefault(c, []).append('%s%s' % (name, '' if v.get('caught') else (' (neutralised by fix %s)' % neut if neut else ' (missed)')))
     for p in props:
         i = p['id']
         if i in CHECKS and os.path.exists(os.path.join(V, 'rvlib', 'checks', i.lower() + '.py')):
